@@ -29,6 +29,8 @@ pub trait Ser: Clone + std::fmt::Debug + Serialize + DeserializeOwned {
     fn step(&mut self, x: f64, w: f64);
     fn merge_with(&mut self, _o: &Self) -> bool { false }
     fn stats(&self) -> Vec<String>;
+    /// observations that sit on decision boundaries of this state (histogram edges and their neighbours)
+    fn probes(&self) -> Vec<f64> { Vec::new() }
 }
 
 macro_rules! ser_est {
@@ -69,7 +71,8 @@ macro_rules! ser_hist {
     ($t:ty) => {
         impl Ser for $t {
             const NAME: &'static str = <$t as Hst>::NAME;
-            fn fresh(rng: &mut Rng) -> Self { if rng.unit() < 0.4 { <$t>::with_const_width(-3.0, 3.0) } else if rng.unit() < 0.4 {
+            fn probes(&self) -> Vec<f64> { crate::props_hist::samples_for_pub(&self.ranges_()).into_iter().filter(|x| !x.is_nan()).collect() }
+            fn fresh(rng: &mut Rng) -> Self { if rng.unit() < 0.4 { let (a, b) = *rng.pick(&[(-3.0, 3.0), (1.0, 2.0), (0.0, 0.7), (-1e-3, 1e3), (0.1, 0.3)]); <$t>::with_const_width(a, b) } else if rng.unit() < 0.4 {
                 // repeated edges (empty bins) are valid histograms too
                 let mut e: Vec<f64> = (0..=<$t as Hst>::LEN).map(|_| (rng.below(5) as f64 - 2.0) * 0.5).collect(); e.sort_by(|a, b| a.partial_cmp(b).unwrap()); <$t>::from_ranges(e).unwrap() } else { let mut e: Vec<f64> = (0..=<$t as Hst>::LEN).map(|_| rng.normal() * 2.0).collect(); e.sort_by(|a, b| a.partial_cmp(b).unwrap()); <$t>::from_ranges(e).unwrap() } }
             fn step(&mut self, x: f64, _w: f64) { let _ = self.add(x); }
@@ -146,12 +149,24 @@ fn c18_for<T: Ser>(out: &mut Out, tier: &str, rng: &mut Rng) {
     for rep in 0..reps {
         if !out.next_case() { continue; }
         let n = if rep == 0 { 7 } else { 1 + rng.below(if T::NAME.starts_with('H') && T::NAME.len() > 3 { 30 } else { 60 }) };
-        let (xs, _) = dataset_in(rng, n, 1e9, -18.0, 18.0, FAMILIES);
+        let (mut xs, _) = dataset_in(rng, n, 1e9, -18.0, 18.0, FAMILIES);
+        // the ends of the finite range: subnormal and smallest-normal observations (of one sign, so that they are the
+        // running extremes too), huge ones
+        match rep % 6 {
+            3 => { let sg = if rng.unit() < 0.5 { 1.0 } else { -1.0 }; for x in xs.iter_mut() { *x = sg * 5e-324 * (1 + rng.below(1 << 30)) as f64; } }
+            4 => { let sg = if rng.unit() < 0.5 { 1.0 } else { -1.0 }; for x in xs.iter_mut() { *x = sg * f64::MIN_POSITIVE * (0.25 + 4.0 * rng.unit()); } }
+            5 => { for x in xs.iter_mut() { *x = rng.normal() * 1e140; } }
+            _ => {}
+        }
         let ws: Vec<f64> = (0..n).map(|_| rng.unit() * 3.0).collect();
-        // a second estimator to merge in at some point ("between merges")
-        let mut other = T::fresh(rng);
-        for i in 0..rng.below(10) { other.step(xs[i % n] * 0.5 + 1.0, 1.0); }
         let base = T::fresh(rng);
+        // states with decision boundaries (histograms): observations on and next to the boundaries
+        let pr = base.probes();
+        if !pr.is_empty() && rep % 2 == 1 { for x in xs.iter_mut() { *x = *rng.pick(&pr); } }
+        // a second estimator to merge in at some point ("between merges")
+        let mut other = base.clone();
+        if !other.merge_with(&base) { other = T::fresh(rng); } else { other = base.clone(); }
+        for i in 0..rng.below(10) { other.step(xs[i % n] * 0.5 + 1.0, 1.0); }
         // uninterrupted run
         let merge_at = rng.below(n + 1);
         let mut plain = base.clone();
@@ -274,6 +289,31 @@ pub fn c19(out: &mut Out, tier: &str, rng: &mut Rng) {
                 par_case::<average::Max>(out, rng, &pool, d, mn, mx, !by_ref, &mut trees);
                 if n < 1_000_000 || th == 16 { par_case::<average::Skewness>(out, rng, &pool, d, mn, mx, !by_ref, &mut trees); par_case::<average::Moments4>(out, rng, &pool, d, mn, mx, by_ref, &mut trees); }
                 if n <= 20_000 { par_case::<M6>(out, rng, &pool, d, mn, mx, !by_ref, &mut trees); par_case::<M10>(out, rng, &pool, d, mn, mx, by_ref, &mut trees); }
+            }
+        }
+    }
+    // chunks of more than 2^16 observations on both sides of a merge (any parallel collect of 2^17 or more items
+    // produces them), and a series that repeats across the cut (chunks with bit-identical means)
+    {
+        let pool = rayon::ThreadPoolBuilder::new().num_threads(*threads.last().unwrap()).build().unwrap();
+        for (n, k) in [(140_000usize, 70_000usize), (300_000, 75_000)] {
+            if tier != "thorough" && n > 200_000 { continue; }
+            let mut d = shape(rng, "exp_pos", n);
+            for (i, x) in d.iter_mut().enumerate() { *x += 2.0 * (i / k) as f64; }      // a trend, so that the chunk means differ
+            par_case::<average::Variance>(out, rng, &pool, &d, k, k, true, &mut trees);
+            par_case::<average::Skewness>(out, rng, &pool, &d, k, k, false, &mut trees);
+            par_case::<average::Kurtosis>(out, rng, &pool, &d, k, k, true, &mut trees);
+            par_case::<average::Moments4>(out, rng, &pool, &d, k, k, false, &mut trees);
+            par_case::<M6>(out, rng, &pool, &d, k, k, true, &mut trees);
+        }
+        for blk in [2usize, 3, 50] {
+            let block = shape(rng, "uniform", blk);
+            let d: Vec<f64> = (0..4 * blk).map(|i| block[i % blk]).collect();
+            for k in [blk, 2 * blk] {
+                par_case::<average::Variance>(out, rng, &pool, &d, k, k, true, &mut trees);
+                par_case::<average::Skewness>(out, rng, &pool, &d, k, k, true, &mut trees);
+                par_case::<average::Kurtosis>(out, rng, &pool, &d, k, k, false, &mut trees);
+                par_case::<M6>(out, rng, &pool, &d, k, k, false, &mut trees);
             }
         }
     }
